@@ -11,8 +11,18 @@ Decided (structural clauses only):
              is produced by the corresponding lookup (start_time/duration <- time lookup, rendering_offset, is_sync,
              bytes <- the buffer filled by read_exact after the absolute seek to the looked-up offset).
              Lower bounds only: an implementation that consults more tables is not reported.
-NOT decided: every offset / time formula and run-boundary computation, i.e. the arithmetic core of the statement
-(runtime relations over all consistent table sets; no static argument in reach).
+  R-UNITS    dimension and scope typing of the lookup arithmetic (rules/units.py): every table field has the quantity ISO
+             gives it (sample number, chunk number, byte offset, media ticks; absolute or relative; per file or per run) and
+             every operation of the non-fragmented lookup closure (stsc_index, chunk_offset, sample_size, sample_offset,
+             sample_time, ctts_index, sample_rendering_offset, is_sync_sample, sample_count, read_sample) must combine
+             compatible quantities: no chunk number where a sample number belongs, no absolute id multiplied or reduced
+             modulo, no file-relative index added to a chunk / run origin or divided by a run's samples_per_chunk, every
+             table indexed by its own kind of zero-based index, byte and tick sums / products formed in 64 bits.
+             A necessary condition of the formulas (a dimensionally inconsistent formula is wrong for some table set).
+  R-PURE     the lookups are functions of the tables and the arguments: no interior mutability in the reader / track types
+             and `&self` receivers only (C15 R1/R2 instances), so no cache or cursor can make a result depend on earlier calls.
+NOT decided: the values themselves - literal constants are polymorphic in R-UNITS (x - 1 is a zero-based index or the
+previous id), so off-by-one errors and wrong comparison directions at run boundaries are not decided by any rule here.
 """
 import hirq
 from callgraph import callgraph
@@ -25,6 +35,7 @@ from c01 import adts_read
 # what the demuxer reports for a sample when the optional table is absent (R-DEFAULT requires exactly these constants;
 # C01 R6 requires the muxer to leave the table absent only for samples with these values)
 ABSENT_DEFAULT = {"ctts": 0, "stss": 1}
+UNITS_FLOOR = 80      # dimension checks counted on the pinned tree in the non-fragmented + common regions
 
 
 def opt_field_switches(body, field):
@@ -200,8 +211,36 @@ def run(fx, chk, tier):
             ok = True
         chk.require(ok, "R-FOOT", "Mp4Sample.bytes", "buffer of sample_size bytes filled by read_exact after seek(Start(sample_offset)), returned as the sample's bytes",
                     "the returned bytes are not the buffer read at the looked-up offset: %s" % why, site_of(frs))
+    # ---------------- R-UNITS
+    import units
+    chk.rule("R-UNITS", "every operation of the non-fragmented lookup closure combines dimensionally compatible quantities (units, absolute/relative, file/run scope, 64-bit sums)")
+    units.run_rule(fx, chk, "R-UNITS", [("Mp4Track", "read_sample"), ("Mp4Track", "sample_offset"), ("Mp4Track", "sample_count")], regions=("nonfrag", None), floor=UNITS_FLOOR, what="in the non-fragmented lookups")
+    # ---------------- R-PURE (instances owned by C15)
+    chk.rule("R-PURE", "no interior mutability in reader/track types; lookups take &self (C15 R1/R2 instances)")
+    import importlib
+    import report
+    c15 = importlib.import_module("c15")
+    s15 = report.Check("C15")
+    s15.finish = lambda *a, **k: 0
+    c15.run(fx, s15, tier)
+    npure = 0
+    for o in s15.obligations:
+        r = o["rule"].split(".floor")[0].split(".anchor")[0]
+        if r not in ("R1", "R2"):
+            continue
+        if r == "R1" and not ("Mp4Reader" in o["key"] or "Mp4Track" in o["key"] or "types|" in o["key"] or "static" in o["key"]):
+            continue
+        if "Writer" in o["key"]:
+            continue
+        npure += 1
+        key = "C15:%s|%s" % (o["rule"], o["key"])
+        if o["ok"]:
+            chk.ok("R-PURE", key, o["how"], o["site"])
+        else:
+            chk.bad("R-PURE", key, o["how"], o["site"], o.get("detail"))
+    chk.floor("R-PURE", "purity obligations", npure, 10)
     return chk.finish(
         "other",
-        "Absent-table defaults, the count source and lower-bound table footprints of the non-fragmented lookup are checked on MIR/HIR. "
-        "The offset/time formulas themselves - the core of C03 - are NOT decided: they are relations over all consistent table sets that no static argument in reach covers.",
+        "Absent-table defaults, the count source, lower-bound table footprints, the dimensional consistency of every lookup operation (units, absolute/relative, file/run scope, 64-bit byte and tick arithmetic) and the purity of the lookups are checked on HIR/MIR. "
+        "The values the formulas produce are NOT decided: constants are polymorphic in the dimension typing, so off-by-one errors and comparison directions at run boundaries are outside every rule here.",
     )
